@@ -188,12 +188,16 @@ class FakeQueue:
     def __init__(self, maxsize: int = 0) -> None:
         self.items: List[Any] = []
         self.pending: List[Any] = []
+        self.maxsize = maxsize
         if self.world.queue is None:
             self.world.queue = self
 
     def put(self, x: Any) -> None:
         self.world.point("put")
         self.world.rec("put", type(x).__name__, getattr(x, "is_reload_all", None))
+        if self.maxsize and self.maxsize > 0 and len(self.items) + len(self.pending) >= self.maxsize:
+            # a bounded queue that is full: put() blocks - and the manager is the only consumer
+            raise WouldBlockForever(f"put() on a full action queue (maxsize={self.maxsize})")
         if self.world.lag and not self.world.in_sleep:
             self.pending.append(x)
         else:
@@ -290,7 +294,8 @@ def run_history(workers: int, max_fails: int, history: List[Any], lag: bool = Fa
             pass
         except WouldBlockForever as exc:
             out["blocked"] = True
-            out["crash"] = f"join() on a live process nobody terminated: {exc}"
+            out["crash"] = (f"manager blocked forever: {exc}" if "action queue" in str(exc)
+                            else f"join() on a live process nobody terminated: {exc}")
         except Livelock as exc:
             out["blocked"] = True
             out["crash"] = f"manager stuck: {exc}"
